@@ -21,7 +21,7 @@ From Coq Require Import ZArith List Bool Lia.
 Import ListNotations.
 Local Open Scope Z_scope.
 
-Inductive err := KeyError | ValueError | DatasetError | TypeError | AttributeError | UnboundLocalError | OtherError.
+Inductive err := KeyError | ValueError | DatasetError | TypeError | AttributeError | UnboundLocalError | IndexError | OtherError.
 Inductive res (A : Type) := Ok (a : A) | Err (e : err).
 Arguments Ok {A} a.
 Arguments Err {A} e.
@@ -178,11 +178,15 @@ Fixpoint distinctz (l : list Z) : list Z :=
   end.
 
 (* groupby(id)[covs].nunique().gt(1).any() : positions of the covariate columns that vary *)
-Definition tvc_impl (ncov : nat) (d : dataset) : list bool :=
-  map (fun j => existsb (fun k => Nat.ltb 1 (length (distinctz (map (nth_cov j)
-                                     (filter (fun r => r_id r =? k) (ds_rows d))))))
-                        (skeys (map r_id (ds_rows d))))
-      (seq 0 ncov).
+Definition tvc_impl (ncov : nat) (d : dataset) : res (list bool) :=
+  match ncov with
+  | O => Err IndexError          (* typeix['covariate'] raises; the `len(cov_labels) == 0` branch is dead *)
+  | _ =>
+    Ok (map (fun j => existsb (fun k => Nat.ltb 1 (length (distinctz (map (nth_cov j)
+                                       (filter (fun r => r_id r =? k) (ds_rows d))))))
+                          (skeys (map r_id (ds_rows d))))
+        (seq 0 ncov))
+  end.
 
 (* ------------------------------------------------------------------ get_doseid *)
 Definition dose_flag (r : row) : Z := if 0 <? r_amt r then 1 else 0.
@@ -251,16 +255,45 @@ Definition e_rg (e : erow) : Z := snd e.
 Definition exploded (s : schema) (rows : list row) : list erow :=
   flat_map (fun x => map (fun e => (e, snd x)) (explode_row (fst x))) (ann s rows).
 
-(* groupby([id, '_RESETGROUP']).apply(sort_values(by='_TIMES', kind='stable')) *)
+Definition e_lab (e : erow) : Z := r_lab (fst (fst e)).
+
+Definition groups_of {A : Type} (key : A -> Z) (l : list A) : list (list A) :=
+  map (fun k => filter (fun x => key x =? k) l) (skeys (map key l)).
+
+Fixpoint zlist_eqb (a b : list Z) : bool :=
+  match a, b with
+  | [], [] => true
+  | x :: a', y :: b' => (x =? y) && zlist_eqb a' b'
+  | _, _ => false
+  end.
+
+(* distinct values in order of first appearance (algorithms.unique1d) *)
+Fixpoint uniq_from (seen : list Z) (l : list Z) : list Z :=
+  match l with
+  | [] => []
+  | x :: tl => if existsb (Z.eqb x) seen then uniq_from seen tl else x :: uniq_from (x :: seen) tl
+  end.
+
+(* groupby([id, '_RESETGROUP'], group_keys=False).apply(sort_values(by='_TIMES', kind='stable')):
+   the groups in ascending (id, reset group) order, each stably sorted by time.  When no group's
+   index changed (every group was in time order already) pandas treats the result as a transform and
+   restores the original row order: result.take(get_indexer_non_unique(unique(original index))). *)
 Definition expand_core (s : schema) (rows : list row) : list (row * bool) :=
-  map fst (group_concat e_id (group_concat e_rg (isort_by e_time)) (exploded s rows)).
+  let ex := exploded s rows in
+  let groups := flat_map (groups_of e_rg) (groups_of e_id ex) in
+  let sorted := map (isort_by e_time) groups in
+  let mutated := existsb (fun g => negb (zlist_eqb (map e_lab (isort_by e_time g)) (map e_lab g))) groups in
+  let cat := concat sorted in
+  map fst (if mutated then cat
+           else flat_map (fun l => filter (fun e => e_lab e =? l) cat) (uniq_from [] (map e_lab ex))).
 
 (* expand_additional_doses(model, flag=True): records with the EXPANDED flag *)
 Definition expand_impl (d : dataset) : res (list (row * bool)) :=
   let s := ds_sch d in
   if negb (has_addl s && has_ii s) then Ok (map (fun r => (r, false)) (ds_rows d))   (* model returned as is *)
   else if has_evid s && negb (id_named_ID s) then Err KeyError
-  else if negb (range_index s) then Err ValueError     (* explode on an explicit Index: cannot reindex *)
+  else if negb (range_index s) && existsb (fun r => negb (r_addl r =? 0)) (ds_rows d)
+       then Err ValueError     (* a row was exploded and the index is an explicit Index: cannot reindex *)
   else Ok (relabel (expand_core s (ds_rows d))).
 
 (* df.apply(fn, axis=1) turns every column into float64 *)
@@ -301,6 +334,11 @@ Definition tad_core (fr : list (row * bool)) (dids : list Z) : list (row * Z) :=
                (filter (fun p => negb (snd (fst (fst p)))) (combine sorted (tad_values sorted)))).
 
 Definition tad_impl (d : dataset) : res (list (row * Z)) :=
+  let s := ds_sch d in
+  if has_addl s && negb (has_ii s) then
+    (* expand_additional_doses returns the model as it is, get_doseid runs (and may raise), then df['EXPANDED'] *)
+    match doseid_impl d with Err e => Err e | Ok _ => Err KeyError end
+  else
   match tad_frame d with
   | Err e => Err e
   | Ok fr =>
@@ -336,9 +374,9 @@ Definition cmt_impl (mi : minfo) (d : dataset) : res (list (Z * Z)) :=
     let dose_cmt := match mi_dosing mi with (n, _, _) :: _ => n | [] => 1 end in
     Ok (map (fun lv => (fst lv, zreplace [(1, dose_cmt); (2, 0); (3, 0); (4, dose_cmt)] (snd lv))) (evid_impl d))
   else
-    let remap := dict_of (map (fun c => let '(n, _, central) := c in if central then (2, n) else (1, n))
+    let remap := dict_of (map (fun c : Z * Z * bool => if snd c then (2, fst (fst c)) else (1, fst (fst c)))
                               (mi_dosing mi)) [] in
-    match filter (fun c => snd c) (mi_dosing mi) with
+    match filter (fun c : Z * Z * bool => snd c) (mi_dosing mi) with
     | [] => Err UnboundLocalError                         (* central_number never assigned *)
     | (cn, _, _) :: _ =>
         Ok (map (fun re => let '(r, ev) := re in
@@ -364,7 +402,7 @@ Definition admid_impl (mi : minfo) (d : dataset) : res (list (Z * Z)) :=
     match cmt_impl mi d with
     | Err e => Err e
     | Ok cmt =>
-        let remap := dict_of (map (fun c => let '(n, a, _) := c in (n, a)) (mi_dosing mi)) [] in
+        let remap := dict_of (map (fun c : Z * Z * bool => fst c) (mi_dosing mi)) [] in
         let adm := map (fun lv => zreplace remap (snd lv)) cmt in
         if negb (id_named_ID s) then Err KeyError           (* model.dataset["ID"] *)
         else
@@ -523,12 +561,14 @@ Fixpoint admid_walk_from (cur_subj cur_adm : Z) (l : list (Z * Z * Z)) : list Z 
   end.
 
 (* ================================================================== guards =================== *)
+Fixpoint forall_ctx_from {A : Type} (P : list A -> A -> list A -> bool) (rpre l : list A) : bool :=
+  match l with
+  | [] => true
+  | x :: tl => P rpre x tl && forall_ctx_from P (x :: rpre) tl
+  end.
+(* P holds at every element, given the reversed list of the elements before it and the list after it *)
 Definition forall_ctx {A : Type} (P : list A -> A -> list A -> bool) (l : list A) : bool :=
-  (fix go (rpre : list A) (l : list A) : bool :=
-     match l with
-     | [] => true
-     | x :: tl => P rpre x tl && go (x :: rpre) tl
-     end) [] l.
+  forall_ctx_from P [] l.
 
 Definition a_id (x : row * Z) : Z := r_id (fst x).
 Definition a_time (x : row * Z) : Z := r_time (fst x).
@@ -539,9 +579,9 @@ Definition a_tie (x y : row * Z) : bool := (a_id x =? a_id y) && (a_time x =? a_
 (* input domain: amounts are not negative *)
 Definition g_amt_nonneg (rows : list row) : bool := forallb (fun r => 0 <=? r_amt r) rows.
 (* input domain: default index 0..n-1 *)
-Definition g_labels_range (rows : list row) : bool :=
-  (fix go (k : Z) (l : list row) : bool :=
-     match l with [] => true | r :: tl => (r_lab r =? k) && go (k + 1) tl end) 0 rows.
+Fixpoint labels_from (k : Z) (l : list row) : bool :=
+  match l with [] => true | r :: tl => (r_lab r =? k) && labels_from (k + 1) tl end.
+Definition g_labels_range (rows : list row) : bool := labels_from 0 rows.
 (* code: df.groupby('ID') *)
 Definition g_id_named (s : schema) : bool := negb (has_evid s) || id_named_ID s.
 (* input domain: within a reset group of an individual the records are in chronological order *)
@@ -604,8 +644,44 @@ Definition g_addl_nonneg (rows : list row) : bool := forallb (fun r => 0 <=? r_a
 
 Definition guard_expand_order (d : dataset) : bool :=
   let s := ds_sch d in
-  g_ids_ascending (ds_rows d) && g_chrono (ann s (ds_rows d)) && g_addl_nonneg (ds_rows d).
+  g_labels_range (ds_rows d) && g_ids_ascending (ds_rows d) && g_chrono (ann s (ds_rows d)).
 
 (* per individual, the values are nondecreasing along the list *)
 Definition g_sorted_within {A : Type} (idf val : A -> Z) (l : list A) : bool :=
   forall_ctx (fun rpre x _ => forallb (fun y => negb (idf x =? idf y) || (val y <=? val x)) rpre) l.
+
+(* add_time_after_dose keeps the frame: in the frame whose DOSEID is taken the individuals are in
+   ascending id order and no DOSEID is out of order within an individual (no observation was moved
+   to the preceding dose), so that the sort by DOSEID is the identity *)
+Definition guard_tad_frame (d : dataset) : bool :=
+  match tad_frame d with
+  | Ok fr =>
+      sortedz (map (fun e : row * bool => r_id (fst e)) fr)
+      && match doseid_impl (with_rows d (map fst fr) true) with
+         | Ok dids => g_sorted_within t_id t_did (combine fr dids)
+         | Err _ => false
+         end
+  | Err _ => false
+  end.
+
+(* the frame is chronological for every individual *)
+Definition guard_tad_chrono (d : dataset) : bool :=
+  match tad_frame d with
+  | Ok fr => g_sorted_within r_id r_time (map fst fr)
+  | Err _ => false
+  end.
+
+(* get_admid by the reference rule: the admid implied by each record's compartment, carried forward
+   from the latest DOSE EVENT (EVID 1 or 4, EVID as NM-TRAN would supply it) of the subject's block *)
+Definition admid_ref (mi : minfo) (d : dataset) : res (list Z) :=
+  match cmt_impl mi d with
+  | Err e => Err e
+  | Ok cmt =>
+      let remap := dict_of (map (fun c : Z * Z * bool => fst c) (mi_dosing mi)) [] in
+      let adm := map (fun lv => zreplace remap (snd lv)) cmt in
+      match ds_rows d, adm with
+      | r0 :: _, a0 :: _ =>
+          Ok (admid_walk_from (r_id r0) a0 (combine (combine (evid_walk d) adm) (map r_id (ds_rows d))))
+      | _, _ => Ok []
+      end
+  end.
